@@ -559,7 +559,7 @@ class FuncInfo:
                 out.append(s)
         return out
 
-    def temp_value(self, name_node, strict=True, stop=()):
+    def temp_value(self, name_node, strict=True, stop=(), allow_self=False):
         """If the Name use denotes a temporary - exactly one reaching
         definition `name = <pure expression>`, the object is never mutated in
         place, and no operand of the expression is rebound or mutated between
@@ -585,6 +585,11 @@ class FuncInfo:
         in_iter = isinstance(use, (ast.For, ast.AsyncFor)) and any(n is name_node for n in ast.walk(use.iter))
         for m in walk_expr(v):
             if not (isinstance(m, ast.Name) and isinstance(m.ctx, ast.Load)):
+                continue
+            if allow_self and m.id == name_node.id and not isinstance(use, (ast.For, ast.While, ast.AsyncFor)) \
+                    and not self._in_loop_with(site, use):
+                # `x = E(x)`: the inner x denotes the PREVIOUS value; the caller (expand) expands it at the
+                # definition site and gives up unless it disappears from the result
                 continue
             if self.rd.defs_at(site, m.id) != self.rd.defs_at(use, m.id):
                 return None
@@ -675,6 +680,15 @@ class FuncInfo:
             target=loop.target, iter=it, ifs=[cond] if cond is not None else [], is_async=0)])
         return ast.copy_location(comp, st)
 
+    def _in_loop_with(self, site, use):
+        """site sits in a loop (so its own result may reach it again)."""
+        p = self.mod.parent.get(site)
+        while p is not None and p is not self.fn:
+            if isinstance(p, (ast.For, ast.While, ast.AsyncFor)):
+                return True
+            p = self.mod.parent.get(p)
+        return False
+
     def _within(self, node, outer):
         p = self.mod.parent.get(node)
         while p is not None:
@@ -696,9 +710,15 @@ class FuncInfo:
         def ex(e, d):
             if isinstance(e, ast.Name):
                 if d > 0 and e.id not in stop and isinstance(e.ctx, ast.Load):
-                    v = self.temp_value(e, strict, stop)
+                    v = self.temp_value(e, strict, stop, allow_self=True)
                     if v is not None:
-                        return ex(v, d - 1)
+                        r = ex(v, d - 1)
+                        if any(isinstance(n, ast.Name) and n.id == e.id for n in ast.walk(v)) and \
+                                any(isinstance(n, ast.Name) and n.id == e.id for n in ast.walk(r)):
+                            # a self-rebinding chain `x = E(x)` that does not bottom out in other names:
+                            # keep the name (its text would otherwise denote two different values)
+                            return ast.copy_location(ast.Name(id=e.id, ctx=e.ctx), e)
+                        return r
                 return ast.copy_location(ast.Name(id=e.id, ctx=e.ctx), e)
             if not isinstance(e, ast.AST):
                 return e
